@@ -51,7 +51,7 @@ func init() {
 				{Name: "codec-concurrent", Variant: "race", Cases: ncc, Shards: 4, Run: c18concurrentCase, CaseTimeout: 120 * time.Second,
 					Required: []string{"concurrent_encodes"}},
 				{Name: "wire", Variant: "race", Cases: nw, Run: c18wireCase, CaseTimeout: 120 * time.Second,
-					Required: []string{"sessions", "sessions_compression_negotiated", "sessions_compressor_not_advertised", "requests_compressed", "requests_uncompressed", "replies_compressed_ok", "hostile_flagged_without_compressor", "hostile_corrupt_body"}},
+					Required: []string{"sessions", "sessions_compression_negotiated", "sessions_compressor_not_advertised", "requests_compressed", "requests_uncompressed", "replies_compressed_ok", "hostile_flagged_without_compressor", "hostile_corrupt_body", "sessions_on_mixed_clusters"}},
 			}
 		},
 	})
@@ -628,6 +628,21 @@ func c18wireCase(c *runner.Ctx, i int) {
 		n.Handler = cn.handler
 		n.Supported = opts.m
 	}
+	// a cluster whose nodes do not offer the same compressors (a rolling upgrade, a mixed fleet): what is negotiated
+	// is a matter of each connection
+	mixed := len(cl.Nodes) == 2 && r.Intn(3) == 0
+	if mixed {
+		cl.Nodes[1].Supported = c18optionSets[(oi+1+r.Intn(len(c18optionSets)-1))%len(c18optionSets)].m
+		c.Add("sessions_on_mixed_clusters", 1)
+	}
+	advFor := func(n *fakenode.Node) bool {
+		for _, a := range n.Supported["COMPRESSION"] {
+			if a == compName {
+				return true
+			}
+		}
+		return false
+	}
 	cfg := newCfg(cl, version)
 	cfg.Timeout = 20 * time.Second // the oracle never depends on it; the node's reference encoders are slow under the race detector
 	cfg.NumConns = 1 + r.Intn(2)
@@ -640,6 +655,9 @@ func c18wireCase(c *runner.Ctx, i int) {
 	}
 	c.Add("sessions", 1)
 	key := fmt.Sprintf("v%d compressor=%q SUPPORTED=%s", version, compName, opts.name)
+	if mixed {
+		key += fmt.Sprintf(" (second node: COMPRESSION=%v)", cl.Nodes[1].Supported["COMPRESSION"])
+	}
 	wit := func(extra map[string]interface{}) map[string]interface{} {
 		cn.mu.Lock()
 		w := map[string]interface{}{"case": key, "node_problems": append([]string{}, cn.problems...)}
@@ -777,6 +795,7 @@ func c18wireCase(c *runner.Ctx, i int) {
 				continue
 			}
 			got, has := rq.Options["COMPRESSION"]
+			advertised := advFor(sc.Node)
 			switch {
 			case has && (compName == "" || !advertised || got != compName):
 				c.Violation("C18:wire:startup-compression-option", fmt.Sprintf("STARTUP carries COMPRESSION=%q (%s)", got, key), wit(nil))
@@ -788,8 +807,15 @@ func c18wireCase(c *runner.Ctx, i int) {
 	fl, pl := atomic.LoadInt64(&cn.flagged), atomic.LoadInt64(&cn.plain)
 	c.Add("requests_compressed", fl)
 	c.Add("requests_uncompressed", pl)
-	if fl > 0 && !(compName != "" && advertised) {
+	anyAdvertised := false
+	for _, n := range cl.Nodes {
+		anyAdvertised = anyAdvertised || advFor(n)
+	}
+	if fl > 0 && !(compName != "" && anyAdvertised) {
 		c.Violation("C18:wire:compressed-request-not-negotiated", fmt.Sprintf("%d requests carried the compression flag (%s)", fl, key), wit(nil))
+	}
+	if mixed {
+		return // the hostile replies below are scripted per session, not per connection
 	}
 	// --- hostile replies -----------------------------------------------------------------
 	negotiated := compName != "" && advertised
